@@ -142,6 +142,8 @@ enum Obj {
     Slot1(SlotGuard<Sub1>),
     Slot2(SlotGuard<Sub2>),
     Slot3(SlotGuard<SlotMarker>),
+    /// very many flush guards of the entry, dropped one after the other (in creation order) by one operation
+    Many(Vec<(u64, FlushGuard)>),
 }
 
 struct Table {
@@ -170,6 +172,14 @@ impl Table {
 fn do_drop(log: &ULog, table: &Table, op: &Value) {
     let id = ju(op, "obj", 0);
     let mut o = table.take(id);
+    if let Obj::Many(gs) = o {
+        for (gid, g) in gs {
+            log.log(UK::DropBegin { obj: gid });
+            drop(g);
+            log.log(UK::DropEnd { obj: gid });
+        }
+        return;
+    }
     if let Some(v) = op.get("v").and_then(|x| x.as_u64()) {
         match &mut o {
             Obj::Slot1(g) => {
@@ -330,6 +340,16 @@ fn uow_main(plan: &Value, log: ULog) {
                     let g = o.flush_guard();
                     log.log(UK::Create { obj: ju(op, "obj", 0), kind: "flush" });
                     table.put(ju(op, "obj", 0), Obj::Flush(g));
+                }
+            }
+            "flush_guard_many" => {
+                if let Some(o) = owner.as_ref() {
+                    let first = ju(op, "first", 30_000);
+                    let gs: Vec<(u64, FlushGuard)> = (0..ju(op, "n", 0)).map(|i| {
+                        log.log(UK::Create { obj: first + i, kind: "flush" });
+                        (first + i, o.flush_guard())
+                    }).collect();
+                    table.put(ju(op, "obj", 0), Obj::Many(gs));
                 }
             }
             "force_guard" => {
@@ -973,6 +993,17 @@ pub fn gen_uow(rng: &mut Rng, slots: bool) -> Value {
             let op = json!({"op":"drop","obj":id});
             let who = (pk / 6400) as usize % droppers.len().max(1);
             if droppers.is_empty() { main_ops.push(op) } else { let at = (pk / 25600) as usize % (droppers[who].len() + 1); droppers[who].insert(at, op) }
+        }
+    }
+    // one plan in 500: the entry has 1 030 - 1 330 flush guards alive at once (created by the owner in one go and
+    // dropped one after the other, in creation order, by one dropper operation)
+    let pm = rng.clone().next_u64().rotate_left(29);
+    if pm % 500 == 0 {
+        if let Some(ow_pos) = main_ops.iter().position(|o| matches!(js(o, "op", ""), "release_owner" | "to_handle")) {
+            let n = 1_030 + (pm / 500) % 300;
+            main_ops.insert(ow_pos, json!({"op":"flush_guard_many","obj":29_999,"first":30_000,"n":n}));
+            let op = json!({"op":"drop","obj":29_999});
+            if droppers.is_empty() { main_ops.push(op) } else { let who = (pm / 80_000) as usize % droppers.len(); droppers[who].push(op) }
         }
     }
     // A third of the plans with a slot guard: delay_flush is called on it late - after the owner has been released, or
